@@ -136,6 +136,182 @@ ROWS = [
     ("unified_atomic_mass_unit", "1.66053906892e-27", M, "u", "CODATA 2022"),
 ]
 
+# ---------------------------------------------------------------------------------------------------------------------
+# second part: every remaining multiplicative unit / constant of the bundled files, so that no definition line is
+# outside the table.  Exact values are written as exact expressions over the independently typed constants above;
+# values that contain a square root or a transcendental number are computed here with 60-digit decimals and
+# compared with a stated relative tolerance: ("approx", decimal string, reltol).
+from decimal import Decimal as D, getcontext as _gc
+
+_gc().prec = 60
+
+
+def _d(fr):
+    return D(fr.numerator) / D(fr.denominator)
+
+
+PI = D(PI50)
+G_ = F("6.67430e-11")            # CODATA 2022
+RINF = F("10973731.568157")      # CODATA 2022
+ME = F("9.1093837139e-31")       # CODATA 2022
+MP = F("1.67262192595e-27")      # CODATA 2022
+KJ90, RK90 = F("4.835979e14"), F("25812.807")
+hbar_d = _d(h_) / (2 * PI)
+alpha_d = (2 * _d(h_) * _d(RINF) / (_d(ME) * _d(c0))).sqrt()          # alpha^2 = 2 h R_inf / (m_e c)
+assert abs(alpha_d / D("7.2973525643e-3") - 1) < D("3e-10"), alpha_d   # CODATA 2022 printed value
+mu0_d = 2 * alpha_d * _d(h_) / (_d(e_) ** 2 * _d(c0))
+assert abs(mu0_d / D("1.25663706127e-6") - 1) < D("3e-10")
+eps0_d = 1 / (mu0_d * _d(c0) ** 2)
+kC_d = 1 / (4 * PI * eps0_d)
+a0_d = hbar_d / (alpha_d * _d(ME) * _d(c0))
+assert abs(a0_d / D("5.29177210544e-11") - 1) < D("3e-10")
+Eh_d = 2 * _d(h_) * _d(c0) * _d(RINF)
+assert abs(Eh_d / D("4.3597447222060e-18") - 1) < D("1e-11")
+re_d = alpha_d * hbar_d / (_d(ME) * _d(c0))
+aut_d = hbar_d / Eh_d
+auE_d = _d(e_) * kC_d / a0_d**2
+
+
+def _ln(x):
+    """natural logarithm by Newton iteration on exp (60 digits)"""
+    y = D(str(__import__("math").log(float(x))))
+    for _ in range(8):
+        y = y + 2 * (x - y.exp()) / (x + y.exp())
+    return y
+
+
+def _solve(f, lo, hi):
+    lo, hi = D(lo), D(hi)
+    for _ in range(220):
+        mid = (lo + hi) / 2
+        if (f(lo) > 0) == (f(mid) > 0):
+            lo = mid
+        else:
+            hi = mid
+    return (lo + hi) / 2
+
+
+LN10 = _ln(D(10))
+WIEN_X = _solve(lambda x: 5 * (1 - (-x).exp()) - x, "4", "6")     # x = 5 (1 - e^-x)
+WIEN_U = _solve(lambda x: 3 * (1 - (-x).exp()) - x, "2", "4")     # x = 3 (1 - e^-x)
+
+
+def _tan(x):
+    # x tiny: series is enough for 60 digits
+    x = D(x)
+    return x + x**3 / 3 + 2 * x**5 / 15 + 17 * x**7 / 315 + 62 * x**9 / 2835
+
+
+TANSEC = _tan(PI / 648000)
+E_NUM = D(1).exp()
+
+
+def approx(d, tol="1e-13"):
+    return ("approx", format(d, ".40e"), float(tol))
+
+
+def pi_(fr, power=1):
+    fr = F(fr)
+    return ("pi", fr.numerator, fr.denominator, power)
+
+
+ifloz = igal / 160
+txp = inch / F("72.27")
+sqrt_1e9_inv = D("1e-9").sqrt()          # franklin in SI-like root units: sqrt(erg * cm) = sqrt(1e-9) kg^1/2 m^3/2 s^-1
+ACTION = {"kg": 1, "m": 2, "s": -1}
+CHARGE = {"A": 1, "s": 1}
+VOLT = {"kg": 1, "m": 2, "s": -3, "A": -1}
+OHM = {"kg": 1, "m": 2, "s": -3, "A": -2}
+DENS = {"kg": 1, "m": -3}
+H2 = F(1, 2)
+
+ROWS2 = [
+    # ---- mathematical constants (dimensionless numbers)
+    ("pi", pi_(1), NONE, None, "mathematics"), ("tansec", approx(TANSEC, "1e-15"), NONE, None, "tan(1 arcsec)"), ("ln10", approx(LN10, "1e-15"), NONE, None, "mathematics"),
+    ("wien_x", approx(WIEN_X, "1e-15"), NONE, None, "root of x = 5(1-exp(-x))"), ("wien_u", approx(WIEN_U, "1e-15"), NONE, None, "root of x = 3(1-exp(-x))"), ("eulers_number", approx(E_NUM, "1e-15"), NONE, None, "mathematics"),
+    ("zeta", "29979245800", NONE, None, "c in cm/s"),
+    # ---- constants that follow exactly from the defining constants of the SI
+    ("dirac_constant", pi_(h_ / 2, -1), ACTION, None, "h / 2 pi"), ("conductance_quantum", ("expr", 2 * e_**2 / h_), {"kg": -1, "m": -2, "s": 3, "A": 2}, None, "2 e^2 / h"),
+    ("magnetic_flux_quantum", ("expr", h_ / (2 * e_)), {"kg": 1, "m": 2, "s": -2, "A": -1}, None, "h / 2e"),
+    ("stefan_boltzmann_constant", pi_(2 * k_**4 / (15 * h_**3 * c0**2), 5), {"kg": 1, "s": -3, "K": -4}, None, "2 pi^5 k^4 / 15 h^3 c^2"),
+    ("first_radiation_constant", pi_(2 * h_ * c0**2), {"kg": 1, "m": 4, "s": -3}, None, "2 pi h c^2"), ("second_radiation_constant", ("expr", h_ * c0 / k_), {"m": 1, "K": 1}, None, "h c / k"),
+    ("wien_wavelength_displacement_law_constant", approx(_d(h_ * c0 / k_) / WIEN_X), {"m": 1, "K": 1}, None, "h c / (k x)"), ("wien_frequency_displacement_law_constant", approx(WIEN_U * _d(k_ / h_)), {"s": -1, "K": -1}, None, "u k / h"),
+    ("faraday", ("expr", e_ * NA), CHARGE, None, "e N_A (as a unit of charge)"), ("particle", ("expr", 1 / NA), {"mol": 1}, None, "1 / N_A"),
+    # ---- constants that follow from CODATA 2022 measured inputs (R_inf, m_e, m_p, G)
+    ("fine_structure_constant", approx(alpha_d, "1e-12"), NONE, None, "CODATA 2022 relation"), ("vacuum_permeability", approx(mu0_d, "1e-12"), {"kg": 1, "m": 1, "s": -2, "A": -2}, None, "2 alpha h / e^2 c"),
+    ("vacuum_permittivity", approx(eps0_d, "1e-12"), {"kg": -1, "m": -3, "s": 4, "A": 2}, None, "e^2 / 2 alpha h c"), ("impedance_of_free_space", approx(mu0_d * _d(c0), "1e-12"), OHM, None, "mu0 c"),
+    ("coulomb_constant", approx(kC_d, "1e-12"), {"kg": 1, "m": 3, "s": -4, "A": -2}, None, "1 / 4 pi eps0"), ("classical_electron_radius", approx(re_d, "1e-12"), L, None, "alpha hbar / m_e c"),
+    ("thomson_cross_section", approx(8 * PI * re_d**2 / 3, "1e-12"), A2, None, "8 pi r_e^2 / 3"), ("bohr", approx(a0_d, "1e-12"), L, None, "hbar / alpha m_e c"),
+    ("rydberg", approx(Eh_d / 2, "1e-13"), ENERGY, None, "h c R_inf"), ("hartree", approx(Eh_d, "1e-13"), ENERGY, None, "2 h c R_inf"),
+    ("atomic_unit_of_time", approx(aut_d, "1e-12"), T, None, "hbar / E_h"), ("atomic_unit_of_temperature", approx(Eh_d / _d(k_), "1e-12"), {"K": 1}, None, "E_h / k"), ("atomic_unit_of_force", approx(Eh_d / a0_d, "1e-12"), FORCE, None, "E_h / a_0"),
+    ("atomic_unit_of_current", approx(_d(e_) / aut_d, "1e-12"), {"A": 1}, None, "e E_h / hbar"), ("atomic_unit_of_electric_field", approx(auE_d, "1e-12"), {"kg": 1, "m": 1, "s": -3, "A": -1}, None, "e k_C / a_0^2"),
+    ("atomic_unit_of_intensity", approx(eps0_d * _d(c0) * auE_d**2 / 2, "1e-12"), {"kg": 1, "s": -3}, None, "eps0 c E^2 / 2"),
+    ("bohr_magneton", approx(_d(e_) * hbar_d / (2 * _d(ME)), "1e-13"), {"A": 1, "m": 2}, None, "e hbar / 2 m_e"), ("nuclear_magneton", approx(_d(e_) * hbar_d / (2 * _d(MP)), "1e-13"), {"A": 1, "m": 2}, None, "e hbar / 2 m_p"),
+    ("planck_length", approx((hbar_d * _d(G_) / _d(c0) ** 3).sqrt(), "1e-13"), L, None, "sqrt(hbar G / c^3)"), ("planck_mass", approx((hbar_d * _d(c0) / _d(G_)).sqrt(), "1e-13"), M, None, "sqrt(hbar c / G)"),
+    ("planck_time", approx((hbar_d * _d(G_) / _d(c0) ** 5).sqrt(), "1e-13"), T, None, "sqrt(hbar G / c^5)"), ("planck_temperature", approx((hbar_d * _d(c0) ** 5 / _d(G_)).sqrt() / _d(k_), "1e-13"), {"K": 1}, None, "sqrt(hbar c^5 / G) / k"),
+    ("planck_current", approx((_d(c0) ** 6 / (_d(G_) * kC_d)).sqrt(), "1e-12"), {"A": 1}, None, "sqrt(c^6 / G k_C)"),
+    ("unit_pole", approx(mu0_d / 10, "1e-12"), {"kg": 1, "m": 2, "s": -2, "A": -1}, None, "mu0 x 10 A x 1 cm"),
+    # ---- 1990 conventional electrical units (CIPM 1988; factors from the exact K_J, R_K of the 2019 SI)
+    ("conventional_volt_90", ("expr", KJ90 * h_ / (2 * e_)), VOLT, None, "K_J-90 / K_J"), ("conventional_ohm_90", ("expr", h_ / e_**2 / RK90), OHM, None, "R_K / R_K-90"),
+    ("conventional_ampere_90", ("expr", KJ90 * RK90 * e_ / 2), {"A": 1}, None, "V_90 / ohm_90"), ("conventional_coulomb_90", ("expr", KJ90 * RK90 * e_ / 2), CHARGE, None, ""),
+    ("conventional_watt_90", ("expr", KJ90**2 * RK90 * h_ / 4), POWER, None, ""), ("conventional_farad_90", ("expr", RK90 * e_**2 / h_), {"kg": -1, "m": -2, "s": 4, "A": 2}, None, ""),
+    ("conventional_henry_90", ("expr", h_ / e_**2 / RK90), {"kg": 1, "m": 2, "s": -2, "A": -2}, None, ""),
+    # ---- historical "international" electrical units (NIST SP 811 footnotes)
+    ("mean_international_volt", "1.00034", VOLT, None, "SP 811"), ("US_international_volt", "1.00033", VOLT, None, "SP 811"), ("mean_international_ohm", "1.00049", OHM, None, "SP 811"), ("US_international_ohm", "1.000495", OHM, None, "SP 811"),
+    ("mean_international_ampere", ("expr", F("1.00034") / F("1.00049")), {"A": 1}, None, "V / ohm"), ("US_international_ampere", ("expr", F("1.00033") / F("1.000495")), {"A": 1}, None, "V / ohm"),
+    # ---- angle, time
+    ("milliarcsecond", pi_(F(1, 648000000)), {"rad": 1}, None, ""), ("mil", pi_(F(1, 32000)), {"rad": 1}, None, "NATO mil: 6400 per turn"), ("square_degree", pi_(F(1, 32400), 2), {"rad": 2}, None, "(pi/180)^2 sr"),
+    ("month", ("expr", jyear / 12), T, None, "Julian year / 12"), ("eon", ("expr", jyear * 10**9), T, None, ""), ("svedberg", "1e-13", T, None, ""),
+    ("sidereal_year", ("expr", F("365.256363004") * day), T, None, "IERS (J2000.0)"), ("tropical_year", ("expr", F("365.242190402") * day), T, None, "IERS (J2000.0)"),
+    ("sidereal_day", ("approx", "86164.0905308329", 1e-12), T, None, "IERS: 86400 / 1.002737909350795"), ("sidereal_month", ("approx", "2360591.5579", 2e-9), T, None, "27.321661547 d"),
+    ("tropical_month", ("approx", "2360584.68", 2e-8), T, None, "27.321582 d"), ("synodic_month", ("approx", "2551442.89", 2e-8), T, None, "29.530589 d"),
+    # ---- mass, volume, flow, speed
+    ("gamma_mass", "1e-9", M, None, "microgram"), ("cubic_centimeter", "1e-6", V3, None, ""), ("lambda", "1e-9", V3, None, "microliter"), ("stere", "1", V3, None, ""), ("sverdrup", "1e6", {"m": 3, "s": -1}, None, ""),
+    ("revolutions_per_minute", pi_(F(1, 30)), {"rad": 1, "s": -1}, None, "2 pi / 60"), ("revolutions_per_second", pi_(2), {"rad": 1, "s": -1}, None, ""), ("counts_per_second", "1", {"count": 1, "s": -1}, None, ""),
+    ("kilometer_per_hour", "1000/3600", SPEED, None, ""), ("kilometer_per_second", "1000", SPEED, None, ""), ("meter_per_second", "1", SPEED, None, ""), ("LMH", ("expr", F("1e-3") / 3600), SPEED, None, "L / m2 / h"),
+    ("darcy", ("expr", F("1e-7") / 101325), A2, None, "cP cm2 / (s atm)"),
+    # ---- force, energy, power
+    ("force_gram", ("expr", g0 / 1000), FORCE, None, "SP 811"), ("force_metric_ton", ("expr", g0 * 1000), FORCE, None, ""), ("force_ton", ("expr", 2000 * lbf), FORCE, None, "SP 811 (short)"), ("force_long_ton", ("expr", 2240 * lbf), FORCE, None, ""),
+    ("UK_force_ton", ("expr", 2240 * lbf), FORCE, None, ""), ("US_force_ton", ("expr", 2000 * lbf), FORCE, None, ""), ("slinch", ("expr", lbf / inch), M, None, "lbf s2 / in"),
+    ("fifteen_degree_calorie", "4.1855", ENERGY, None, "SP 811 (cal_15)"), ("british_thermal_unit", "1055.056", ENERGY, None, "ISO 31-4"), ("thermochemical_british_thermal_unit", ("expr", F("4.184") * 1000 * lb * 5 / 9), ENERGY, None, "SP 811 (Btu_th)"),
+    ("quadrillion_Btu", "1.055056e18", ENERGY, None, "1e15 Btu"), ("therm", "1.055056e8", ENERGY, None, "EC therm: 1e5 Btu"), ("US_therm", "1.054804e8", ENERGY, None, "SP 811"), ("tonne_of_oil_equivalent", "4.1868e10", ENERGY, None, "IEA: 1e10 cal_IT"),
+    ("atmosphere_liter", "101.325", ENERGY, None, ""), ("boiler_horsepower", ("approx", "9809.50", 2e-4), POWER, None, "SP 811"), ("refrigeration_ton", ("approx", "3516.853", 1e-6), POWER, None, "SP 811: 12000 Btu/h"),
+    ("cooling_tower_ton", ("approx", "4396.066", 1e-6), POWER, None, "1.25 refrigeration ton"), ("standard_liter_per_minute", ("expr", F("101.325") / 60), POWER, None, "atm L / min"),
+    ("peak_sun_hour", "3.6e6", {"kg": 1, "s": -2}, None, "1 kWh / m2"), ("clausius", "4.184", {"kg": 1, "m": 2, "s": -2, "K": -1}, None, "cal_th / K"), ("entropy_unit", "4.184", {"kg": 1, "m": 2, "s": -2, "K": -1, "mol": -1}, None, "cal_th / K / mol"),
+    # ---- densities used by the manometric pressure units, and those units (NIST SP 811 conventional values)
+    ("mercury", "13595.1", DENS, None, "0 degC"), ("water", "1000", DENS, None, "conventional"), ("mercury_60F", "13556.8", DENS, None, ""), ("water_39F", "999.972", DENS, None, ""), ("water_60F", "999.001", DENS, None, ""),
+    ("centimeter_Hg", ("expr", F("0.01") * F("13595.1") * g0), PRESS, None, "SP 811: 1333.22"), ("inch_Hg", ("expr", inch * F("13595.1") * g0), PRESS, None, "SP 811: 3386.39 (32 degF)"),
+    ("inch_Hg_60F", ("expr", inch * F("13556.8") * g0), PRESS, None, "SP 811: 3376.85"), ("inch_H2O_39F", ("expr", inch * F("999.972") * g0), PRESS, None, "SP 811: 249.082"), ("inch_H2O_60F", ("expr", inch * F("999.001") * g0), PRESS, None, "SP 811: 248.84"),
+    ("foot_H2O", ("expr", ft * 1000 * g0), PRESS, None, "SP 811: 2989.07"), ("centimeter_H2O", "98.0665", PRESS, None, "SP 811"), ("kip_per_square_inch", ("expr", 1000 * lbf / inch**2), PRESS, None, "ksi"),
+    ("sound_pressure_level", "20e-6", PRESS, None, "reference pressure 20 uPa"), ("reyn", ("expr", lbf / inch**2), {"kg": 1, "m": -1, "s": -1}, None, "psi s"), ("rhe", "10", {"kg": -1, "m": 1, "s": 1}, None, "1 / poise"),
+    # ---- photometry, electromagnetism (SI side)
+    ("lambert", pi_(10000, -1), {"cd": 1, "m": -2}, None, "1/pi cd/cm2"), ("biot", "10", {"A": 1}, None, "abampere"), ("ampere_turn", "1", {"A": 1}, None, ""), ("biot_turn", "10", {"A": 1}, None, ""), ("gilbert", pi_(F(10, 4), -1), {"A": 1}, None, "10/4pi A"),
+    ("townsend", "1e-21", {"kg": 1, "m": 4, "s": -3, "A": -1}, None, "1e-21 V m2"), ("absiemens", "1e9", {"kg": -1, "m": -2, "s": 3, "A": 2}, None, "CGS-EMU"),
+    ("debye", ("expr", F("1e-19") / 29979245800), {"A": 1, "s": 1, "m": 1}, None, "1e-18 statC cm"), ("buckingham", ("expr", F("1e-29") / 29979245800), {"A": 1, "s": 1, "m": 2}, None, "debye angstrom"),
+    # ---- Gaussian units (pint keeps half-integer powers of the mechanical base units)
+    ("franklin", approx(sqrt_1e9_inv, "1e-15"), {"kg": H2, "m": F(3, 2), "s": -1}, None, "sqrt(erg cm)"), ("statvolt", approx(D("1e-7") / sqrt_1e9_inv, "1e-15"), {"kg": H2, "m": H2, "s": -1}, None, "erg / Fr"),
+    ("statampere", approx(sqrt_1e9_inv, "1e-15"), {"kg": H2, "m": F(3, 2), "s": -2}, None, "Fr / s"), ("gauss", approx(D("1e-5") / sqrt_1e9_inv, "1e-15"), {"kg": H2, "m": -H2, "s": -1}, None, "dyn / Fr"),
+    ("maxwell", approx(D("1e-9") / sqrt_1e9_inv, "1e-15"), {"kg": H2, "m": F(3, 2), "s": -1}, None, "G cm2"), ("oersted", approx(D("1e-5") / sqrt_1e9_inv, "1e-15"), {"kg": H2, "m": -H2, "s": -1}, None, "dyn / Mx"),
+    ("statohm", approx(D(100), "1e-14"), {"m": -1, "s": 1}, None, "statV / statA"), ("statfarad", approx(D("0.01"), "1e-14"), {"m": 1}, None, "Fr / statV: 1 cm"), ("statmho", approx(D("0.01"), "1e-14"), {"m": 1, "s": -1}, None, ""),
+    ("statweber", approx(D("1e-7") / sqrt_1e9_inv, "1e-15"), {"kg": H2, "m": H2}, None, "statV s"), ("stattesla", approx(D("1e-3") / sqrt_1e9_inv, "1e-15"), {"kg": H2, "m": -F(3, 2)}, None, "statWb / cm2"),
+    ("stathenry", approx(D(100), "1e-14"), {"m": -1, "s": 2}, None, "statWb / statA"),
+    # ---- US customary / imperial leftovers
+    ("circular_mil", ("pi", 16129, 10**14), A2, None, "pi/4 (0.001 in)^2"), ("cables_length", ("expr", 720 * sft), L, None, "120 fathoms (pint: survey fathom)"), ("square_survey_mile", ("expr", (5280 * sft) ** 2), A2, None, "HB 44"),
+    ("square_league", ("expr", (3 * 5280 * sft) ** 2), A2, None, ""), ("acre_foot", ("expr", 43560 * sft**3), V3, None, "HB 44"), ("dry_barrel", ("expr", 7056 * inch**3), V3, None, "HB 44"), ("board_foot", ("expr", 144 * inch**3), V3, None, ""),
+    ("fifth", ("expr", gal / 5), V3, None, ""), ("shot", ("expr", 3 * gal / 256), V3, None, "3 tablespoons"), ("beer_barrel", ("expr", 31 * gal), V3, None, "US federal"), ("quarter", ("expr", 392 * lb), M, None, "28 stone"), ("bag", ("expr", 94 * lb), M, None, "cement"),
+    ("UK_hundredweight", ("expr", 112 * lb), M, None, ""), ("UK_ton", ("expr", 2240 * lb), M, None, ""), ("US_hundredweight", ("expr", 100 * lb), M, None, ""), ("US_ton", ("expr", 2000 * lb), M, None, ""),
+    ("imperial_minim", ("expr", ifloz / 480), V3, None, "UK WMA"), ("imperial_fluid_scruple", ("expr", ifloz / 24), V3, None, "UK WMA"), ("imperial_fluid_drachm", ("expr", ifloz / 8), V3, None, "UK WMA"),
+    ("imperial_cup", ("expr", igal / 16), V3, None, "half an imperial pint"), ("imperial_barrel", ("expr", 36 * igal), V3, None, "UK"),
+    # ---- typography, textile, pixels, dimensionless markers
+    ("didot", "1/2660", L, None, "Didot point (1/2660 m)"), ("cicero", "12/2660", L, None, ""), ("tex_pica", ("expr", 12 * txp), L, None, "TeX"), ("tex_didot", ("expr", F(1238, 1157) * txp), L, None, "TeX"),
+    ("tex_cicero", ("expr", 12 * F(1238, 1157) * txp), L, None, "TeX"), ("scaled_point", ("expr", txp / 65536), L, None, "TeX"),
+    ("pixel", "1", {"px": 1}, None, ""), ("pixels_per_centimeter", "100", {"px": 1, "m": -1}, None, ""), ("pixels_per_inch", ("expr", 1 / inch), {"px": 1, "m": -1}, None, ""), ("bits_per_pixel", "1", {"bit": 1, "px": -1}, None, ""),
+    ("dtex", "1e-7", {"kg": 1, "m": -1}, None, "decitex"), ("jute", ("expr", lb / (14400 * yd)), {"kg": 1, "m": -1}, None, ""), ("aberdeen", ("expr", lb / (14400 * yd)), {"kg": 1, "m": -1}, None, ""),
+    ("RKM", "9806.65", {"m": 2, "s": -2}, None, "gf / tex"), ("number_english", ("expr", 840 * yd / lb), {"kg": -1, "m": 1}, None, ""), ("number_meter", "1000", {"kg": -1, "m": 1}, None, "km / kg"),
+    ("count", "1", {"count": 1}, None, ""), ("refractive_index_unit", "1", {"riu": 1}, None, ""), ("absorbance_unit", "1", {"abu": 1}, None, ""),
+]
+ROWS = ROWS + ROWS2
+
 # affine temperature scales: kelvin = a * x + b
 SCALES = [
     ("degree_Celsius", "1", "273.15", "°C"), ("degree_Fahrenheit", "5/9", "45967/180", "°F"), ("degree_Rankine", "5/9", "0", "°R"), ("degree_Reaumur", "5/4", "273.15", "°Re"), ("kelvin", "1", "0", "K"),
